@@ -28,6 +28,9 @@ mod uds;
 pub use socket::{Addr, Domain, Fd, SocketOption, SocketOptionKind, Type};
 // for netstat
 pub use socket::{ListenState, Socket, Tcb, TcpState};
+// for the verification harness
+#[cfg(feature = "verif-hooks")]
+pub use socket::PortAllocator;
 // for rules
 pub use packet::{Packet, TcpFlags, TcpSegment, Transport, UdpDatagram};
 
@@ -634,6 +637,11 @@ impl Kernel {
     /// Read-only access to the socket table for `crate::verif`.
     pub(crate) fn verif_table(&self) -> &SocketTable {
         &self.sockets
+    }
+
+    /// Mutable access to the socket table for `crate::verif` (allocator cursor only).
+    pub(crate) fn verif_table_mut(&mut self) -> &mut SocketTable {
+        &mut self.sockets
     }
 }
 
